@@ -2,7 +2,7 @@
     Property theorems only; window functions REGENERATED, scatter loop Model/Driver.v (K3). *)
 From Coq Require Import QArith ZArith List Bool Permutation.
 From Coq Require String.
-From IV Require Import NP GenWindows GenScalars Dist RatLS Grid Driver Driver_proofs Driver_corollaries C06_proofs C06_instances.
+From IV Require Import NP GenWindows GenScalars Dist RatLS Grid Driver Driver_proofs Driver_corollaries C06_proofs C06_instances Ecdf SortedPerm C06_qdm.
 Import ListNotations.
 Open Scope Z_scope.
 
@@ -91,3 +91,28 @@ Print Assumptions C06_ecdfm.
 Theorem C06_fit_hypothesis_satisfiable : forall l l', Permutation l l' -> Dist.fit RatLS.ratls l = Dist.fit RatLS.ratls l'.
 Proof. exact ratls_fit_perm. Qed.
 Print Assumptions C06_fit_hypothesis_satisfiable.
+
+(** DeltaChange (the loop runs over obs, the output follows obs): the same statement with obs in the role of the
+    adjusted series, for both delta types -- obtained from the RunningWindowDebiaser theorem by exchanging roles *)
+Theorem C06_delta_change_additive : forall L S, 0 < S -> S <= L -> S mod 2 = 1 ->
+  order_equivariant_dc L S (fun o h f => unwrap (GenScalars.dc_apply_on_window "additive" o h f)).
+Proof. exact dc_add_order_equivariant. Qed.
+Print Assumptions C06_delta_change_additive.
+
+Theorem C06_delta_change_multiplicative : forall L S, 0 < S -> S <= L -> S mod 2 = 1 ->
+  order_equivariant_dc L S (fun o h f => unwrap (GenScalars.dc_apply_on_window "multiplicative" o h f)).
+Proof. exact dc_mul_order_equivariant. Qed.
+Print Assumptions C06_delta_change_multiplicative.
+
+(** QuantileDeltaMapping (absolute, either ECDF method, fits from the window's obs / cm_hist, year window off): the
+    quantile of a future value within its own window sample does not depend on the storage order of the sample
+    (the ECDF of a sample is invariant under permutations: two sorted permutations of one another agree) *)
+Theorem C06_ecdf_order_free : forall m x x' y, m = step_function \/ m = linear_interpolation -> Permutation x x' -> ecdf m x y = ecdf m x' y.
+Proof. exact ecdf_perm. Qed.
+Print Assumptions C06_ecdf_order_free.
+
+Theorem C06_quantile_delta_mapping : forall L S, 0 < S -> S <= L -> S mod 2 = 1 ->
+  forall (P : Type) (D : Dist.dist P), (forall l l', Permutation l l' -> Dist.fit D l = Dist.fit D l') ->
+  forall em t cth, em = step_function \/ em = linear_interpolation -> order_equivariant L S (W_qdm D em t cth).
+Proof. intros L S H1 H2 H3 P D Hf em t cth Hem. exact (qdm_order_equivariant L S H1 H2 H3 D Hf em t cth Hem). Qed.
+Print Assumptions C06_quantile_delta_mapping.
